@@ -59,4 +59,6 @@ Members(r) == {"time", "level", "message", "target", "thread", "thread_id", "mdc
               \cup (IF r.line # -1 THEN {"line"} ELSE {})
 \* absent optional fields are omitted, never emitted with a placeholder
 OptionalOmitted == phase = "done" => \A f \in {"module_path", "file"} : (rec[f] = Absent) <=> (f \notin Members(rec))
+\* (How the encode call was reached is not part of the line: a record logged by a scope guard's destructor while a
+\* panic unwinds the scope is a record like any other, with the thread's context map as it is.)
 =============================================================================
